@@ -128,8 +128,8 @@ Lemma write_resp_sticky : forall cfg b t x, t_intr t = Some x ->
   t_intr (fst (fst (tx_write_resp cfg b t))) = Some x.
 Proof.
   intros. unfold tx_write_resp.
-  destruct (c_resp_limit cfg =? blen (t_rbuf t)); [destruct (eff_action _ _); exact H|].
-  destruct (c_resp_limit cfg <=? blen (t_rbuf t) + blen b); [|exact H].
+  destruct (t_rlim t =? blen (t_rbuf t)); [destruct (eff_action _ _); exact H|].
+  destruct (t_rlim t <=? blen (t_rbuf t) + blen b); [|exact H].
   destruct (eff_action _ _); cbn; [rewrite H; exact H|].
   rewrite (resp_body_sticky cfg _ x); cbn; exact H.
 Qed.
@@ -140,21 +140,27 @@ Lemma write_resp_it : forall cfg b t t' it n, tx_write_resp cfg b t = (t', it, n
   (it = t_intr t') \/ (it = None /\ t' = t).
 Proof.
   intros cfg b t t' it n. unfold tx_write_resp.
-  destruct (c_resp_limit cfg =? blen (t_rbuf t)).
+  destruct (t_rlim t =? blen (t_rbuf t)).
   { destruct (eff_action _ _); intro H; inversion H; subst; [left|right]; auto. }
-  destruct (c_resp_limit cfg <=? blen (t_rbuf t) + blen b).
+  destruct (t_rlim t <=? blen (t_rbuf t) + blen b).
   { destruct (eff_action _ _); intro H; inversion H; subst; left; reflexivity. }
   intro H; inversion H; subst; left; reflexivity.
 Qed.
 
-Lemma write_resp_ct : forall cfg b t, t_ct (fst (fst (tx_write_resp cfg b t))) = t_ct t.
+Lemma resp_body_buffering : forall cfg t, buffering cfg (tx_resp_body cfg t) = buffering cfg t.
+Proof.
+  intros. unfold tx_resp_body. destruct (t_intr t); [reflexivity|].
+  destruct (negb (t_last t =? 3)); reflexivity.
+Qed.
+
+Lemma buffering_write_resp : forall cfg b t, buffering cfg (fst (fst (tx_write_resp cfg b t))) = buffering cfg t.
 Proof.
   intros. unfold tx_write_resp.
-  destruct (c_resp_limit cfg =? blen (t_rbuf t)); [destruct (eff_action _ _); reflexivity|].
-  destruct (c_resp_limit cfg <=? blen (t_rbuf t) + blen b); [|reflexivity].
-  destruct (eff_action _ _); cbn.
+  destruct (t_rlim t =? blen (t_rbuf t)); [destruct (eff_action _ _); reflexivity|].
+  destruct (t_rlim t <=? blen (t_rbuf t) + blen b); [|reflexivity].
+  destruct (eff_action _ _); cbn [fst].
   - destruct (t_intr t); reflexivity.
-  - unfold tx_resp_body. cbn. destruct (t_intr t); [reflexivity|]. destruct (negb (t_last t =? 3)); reflexivity.
+  - rewrite resp_body_buffering. reflexivity.
 Qed.
 
 (* ------------------------------------------------------------------ projections of the interceptor's moves *)
@@ -227,8 +233,8 @@ Ltac spl3 := repeat match goal with
   | |- blocked _ => unfold blocked
   end.
 
-Lemma inv_init : forall cfg, inv cfg mw_init.
-Proof. intro. right; left. spl3; try reflexivity. intros _. split; reflexivity. Qed.
+Lemma inv_init : forall cfg t0, t_intr t0 = None -> inv cfg (mw_start t0).
+Proof. intros cfg t0 H. right; left. spl3; try reflexivity; [exact H|]. intros _. split; reflexivity. Qed.
 
 Lemma wh_inv : forall cfg sk c m, inv cfg m -> inv cfg (ic_write_header cfg sk c m).
 Proof.
@@ -241,9 +247,6 @@ Proof.
   - right; left. spl3; [exact E | rewrite wh_dbody; exact Hb |].
     rewrite wh_wrote. discriminate.
 Qed.
-
-Lemma buffering_write_resp : forall cfg b t, buffering cfg (fst (fst (tx_write_resp cfg b t))) = buffering cfg t.
-Proof. intros. unfold buffering, processable. rewrite write_resp_ct. reflexivity. Qed.
 
 Lemma write_inv : forall cfg sk b m, inv cfg m -> inv cfg (ic_write cfg sk b m).
 Proof.
@@ -345,13 +348,13 @@ Proof.
 Qed.
 
 (* every writer: a response that ends interrupted delivered no body byte *)
-Theorem response_block_holds : forall cfg sk ops,
-  let m := run_mw_handler cfg sk ops in
+Theorem response_block_holds : forall cfg sk t0 ops, t_intr t0 = None ->
+  let m := run_mw_handler cfg sk t0 ops in
   t_intr (m_tx m) <> None -> cl_body (client_of sk (m_ds m)) = [].
 Proof.
-  intros cfg sk ops m Hi. rewrite client_of_view. cbn.
+  intros cfg sk t0 ops H0 m Hi. rewrite client_of_view. cbn.
   subst m. unfold run_mw_handler in *. apply finish_blocked_body; [|exact Hi].
-  apply steps_inv. apply inv_init.
+  apply steps_inv. apply inv_init. exact H0.
 Qed.
 
 (* ==================== part P4 ==================== *)
@@ -700,12 +703,12 @@ Qed.
 
 Lemma Rw_buffer : forall cfg sk dd m t' x, Rw cfg sk dd m ->
   buffering cfg (m_tx m) && negb (i_released (m_ic m)) = true ->
-  t_intr t' = None -> t_ct t' = t_ct (m_tx m) -> t_rbuf t' = t_rbuf (m_tx m) ++ x ->
+  t_intr t' = None -> buffering cfg t' = buffering cfg (m_tx m) -> t_rbuf t' = t_rbuf (m_tx m) ++ x ->
   Rw cfg sk (ds_write sk x dd) (mw_set_tx t' m).
 Proof.
   intros cfg sk dd m t' x [H1 [H2 [H3 [H4 [H5 [H6 [H7 [H8 H9]]]]]]]] B I C Rb.
   pose proof (write_view sk x dd H3) as V. cbv zeta in V. destruct V as [A [W [F [Inf [Fi Bo]]]]].
-  assert (buffering cfg t' = buffering cfg (m_tx m)) as Bt by (unfold buffering, processable; rewrite C; reflexivity).
+  pose proof C as Bt.
   unfold Rw, pend, vds in *. cbn [mw_set_tx m_tx m_ic m_ds] in *. rewrite Bt, B in *.
   rewrite A, Inf, Fi, Bo, H7, Rb, H6.
   spl; try assumption; try reflexivity.
@@ -803,10 +806,11 @@ Qed.
 Lemma takeN_0 : forall b, takeN 0 b = [].
 Proof. destruct b; reflexivity. Qed.
 
-Lemma resp_body_fields : forall cfg t, t_rbuf (tx_resp_body cfg t) = t_rbuf t /\ t_ct (tx_resp_body cfg t) = t_ct t.
+Lemma resp_body_fields : forall cfg t,
+  t_rbuf (tx_resp_body cfg t) = t_rbuf t /\ buffering cfg (tx_resp_body cfg t) = buffering cfg t.
 Proof.
-  intros. unfold tx_resp_body. destruct (t_intr t); [split; reflexivity|].
-  destruct (negb (t_last t =? 3)); split; reflexivity.
+  intros. split; [|apply resp_body_buffering]. unfold tx_resp_body. destruct (t_intr t); [reflexivity|].
+  destruct (negb (t_last t =? 3)); reflexivity.
 Qed.
 
 Lemma resp_headers_rbuf : forall cfg c live t, t_rbuf (tx_resp_headers cfg c live t) = t_rbuf t.
@@ -815,16 +819,16 @@ Proof.
 Qed.
 
 Lemma write_resp_none : forall cfg b t t' n, t_intr t = None -> tx_write_resp cfg b t = (t', None, n) ->
-  t_intr t' = None /\ t_ct t' = t_ct t /\ t_rbuf t' = t_rbuf t ++ takeN n b.
+  t_intr t' = None /\ buffering cfg t' = buffering cfg t /\ t_rbuf t' = t_rbuf t ++ takeN n b.
 Proof.
   intros cfg b t t' n I. unfold tx_write_resp.
-  destruct (c_resp_limit cfg =? blen (t_rbuf t)).
+  destruct (t_rlim t =? blen (t_rbuf t)).
   { destruct (eff_action _ _); intro H; inversion H; subst; rewrite takeN_0, app_nil_r; auto. }
-  destruct (c_resp_limit cfg <=? blen (t_rbuf t) + blen b).
+  destruct (t_rlim t <=? blen (t_rbuf t) + blen b).
   { destruct (eff_action _ _).
     - rewrite I. cbn. intro H; inversion H.
     - intro H. inversion H. subst. clear H.
-      destruct (resp_body_fields cfg (tx_set_rbuf (t_rbuf t ++ takeN (c_resp_limit cfg - blen (t_rbuf t)) b) t)) as [A B].
+      destruct (resp_body_fields cfg (tx_set_rbuf (t_rbuf t ++ takeN (t_rlim t - blen (t_rbuf t)) b) t)) as [A B].
       rewrite A, B. cbn. auto. }
   intro H; inversion H; subst. cbn. rewrite takeN_all by apply N.le_refl. auto.
 Qed.
@@ -852,7 +856,7 @@ Proof.
     + intros _. apply N.eqb_eq in N. subst n. rewrite takeN_all in Rbuf by apply N.le_refl.
       split; [exact Rbuf | split; [reflexivity | exact W]].
     + assert (buffering cfg (m_tx (mw_set_tx t' m)) && negb (i_released (m_ic (mw_set_tx t' m))) = true) as B2.
-      { cbn. unfold buffering, processable in *. rewrite C'. exact B. }
+      { cbn [mw_set_tx m_tx m_ic]. rewrite C'. exact B. }
       pose proof (Rw_release cfg sk _ _ Rbuf B2) as Rel. cbv zeta in Rel.
       remember (ic_release sk (mw_set_tx t' m)) as m3 eqn:M3.
       destruct Rel as [Rrel [Hf3 [Hnot [Hpend [St Wr]]]]].
@@ -1241,11 +1245,15 @@ End Sim.
 (* ==================== part P8 ==================== *)
 
 (* ------------------------------------------------------------------ the three claims on WrapHandler *)
-Lemma R_init : forall cfg sk, R cfg sk ds_init mw_init.
+Lemma R_init : forall cfg sk t0, t_intr t0 = None -> t_rbuf t0 = [] -> R cfg sk ds_init (mw_start t0).
 Proof.
-  intros. unfold R, R0, wfd, snap_ok, pristine. cbn.
-  repeat match goal with |- _ /\ _ => split end; try reflexivity; intro; congruence.
+  intros cfg sk t0 H1 H2. unfold R, R0, wfd, snap_ok, pristine. cbn.
+  repeat match goal with |- _ /\ _ => split end; try reflexivity; try assumption; intro; congruence.
 Qed.
+
+Lemma tx_after_request_fresh : forall cfg body,
+  t_intr (tx_after_request cfg body) = None /\ t_rbuf (tx_after_request cfg body) = [].
+Proof. intros. split; reflexivity. Qed.
 
 Theorem passthrough_holds : forall cfg sk body ops,
   no_late_headers ops = true -> no_status_after_info ops = true -> no_own_cl ops = true ->
@@ -1262,7 +1270,7 @@ Proof.
     [discriminate|]; intro X; apply mw_request_view in Q; subst view;
     (split; [reflexivity|]); (split; [reflexivity|]);
     unfold run_mw_handler, run_direct in *;
-    apply (sim_run cfg sk ops ds_init mw_init (R_init cfg sk)); try assumption;
+    apply (sim_run cfg sk ops ds_init _ (R_init cfg sk (tx_after_request cfg body) eq_refl eq_refl)); try assumption;
     unfold g_info; (split; [assumption|]); cbn; intro; discriminate.
 Qed.
 
@@ -1273,7 +1281,7 @@ Proof.
   intros cfg sk body ops r. subst r. unfold wrap_handler.
   destruct (c_engine cfg); cbn [r_intr r_invoked r_ds]; try congruence.
   all: destruct (mw_request cfg body); cbn [r_intr r_invoked r_ds]; try discriminate;
-    intros _ X; apply response_block_holds; exact X.
+    intros _ X; apply response_block_holds; [reflexivity | exact X].
 Qed.
 
 (* the handler's req.Body is the client's body, whatever was buffered *)
@@ -1291,8 +1299,8 @@ Qed.
 Lemma request_blocked_iff : forall cfg body,
   (exists it, mw_request cfg body = RBlocked it) <->
   (rule_intr cfg (c_ph1 cfg) <> None \/
-   (c_req_access cfg = true /\ c_req_limit cfg <= blen body /\ eff_action cfg (c_req_action cfg) = Reject) \/
-   rule_intr cfg (c_ph2 cfg (if c_req_access cfg then takeN (c_req_limit cfg) body else [])) <> None).
+   (eff_qacc cfg = true /\ eff_qlim cfg <= blen body /\ eff_action cfg (c_req_action cfg) = Reject) \/
+   rule_intr cfg (c_ph2 cfg (if eff_qacc cfg then takeN (eff_qlim cfg) body else [])) <> None).
 Proof.
   intros cfg body.
   assert (forall l n, blen (takeN n l) = N.min n (blen l)) as TL.
@@ -1302,16 +1310,16 @@ Proof.
   unfold mw_request.
   destruct (rule_intr cfg (c_ph1 cfg)) eqn:P1.
   { split; [intros _; left; discriminate | intros _; eexists; reflexivity]. }
-  destruct (c_req_access cfg) eqn:A.
-  - destruct (blen (takeN (c_req_limit cfg) body) =? c_req_limit cfg) eqn:L.
+  destruct (eff_qacc cfg) eqn:A.
+  - destruct (blen (takeN (eff_qlim cfg) body) =? eff_qlim cfg) eqn:L.
     + apply N.eqb_eq in L. rewrite TL in L.
       destruct (eff_action cfg (c_req_action cfg)) eqn:Act.
       * split; [intros _; right; left; repeat split; lia | intros _; eexists; reflexivity].
-      * destruct (rule_intr cfg (c_ph2 cfg (takeN (c_req_limit cfg) body))) eqn:P2.
+      * destruct (rule_intr cfg (c_ph2 cfg (takeN (eff_qlim cfg) body))) eqn:P2.
         -- split; [intros _; right; right; discriminate | intros _; eexists; reflexivity].
         -- split; [intros [it H]; discriminate | intros [H|[[_ [_ H]]|H]]; congruence].
     + apply N.eqb_neq in L. rewrite TL in L.
-      destruct (rule_intr cfg (c_ph2 cfg (takeN (c_req_limit cfg) body))) eqn:P2.
+      destruct (rule_intr cfg (c_ph2 cfg (takeN (eff_qlim cfg) body))) eqn:P2.
       * split; [intros _; right; right; discriminate | intros _; eexists; reflexivity].
       * split; [intros [it H]; discriminate | intros [H|[[_ [H _]]|H]]; try congruence; lia].
   - destruct (rule_intr cfg (c_ph2 cfg [])) eqn:P2.
@@ -1321,14 +1329,14 @@ Qed.
 
 (* ------------------------------------------------------------------ documented expectations the code does not meet *)
 Definition cfg_plain : config :=
-  mkcfg EOn false 8 Reject false 8 Reject [str "text/plain"%string] None (fun _ => None) (fun _ _ => None) (fun _ _ _ => None).
+  mkcfg EOn false 8 Reject false 8 Reject [str "text/plain"%string] None (fun _ => None) (fun _ _ => None) (fun _ _ _ => None) ctl_none (fun _ => ctl_none) (fun _ _ => ctl_none).
 
 (* F28a: a request-phase redirect is answered with 200 *)
 Lemma request_redirect_refuted : exists cfg body ops it,
   mw_request cfg body = RBlocked it /\ in_act it = ARedirect /\ in_status it = 302 /\
   cl_status (client_of true (r_ds (wrap_handler cfg true body ops))) = 200.
 Proof.
-  exists (mkcfg EOn false 8 Reject false 8 Reject [] (Some (mkintr ARedirect 302)) (fun _ => None) (fun _ _ => None) (fun _ _ _ => None)).
+  exists (mkcfg EOn false 8 Reject false 8 Reject [] (Some (mkintr ARedirect 302)) (fun _ => None) (fun _ _ => None) (fun _ _ _ => None) ctl_none (fun _ => ctl_none) (fun _ _ => ctl_none)).
   exists [], [HWrite [120]], (mkintr ARedirect 302). repeat split; reflexivity.
 Qed.
 
@@ -1357,7 +1365,8 @@ Qed.
    on the repaired code: *)
 Example implicit_header_block_repaired :
   let cfg := mkcfg EOn false 8 Reject false 8 Reject [] None (fun _ => None)
-                   (fun _ _ => Some (mkintr ADeny 403)) (fun _ _ _ => None) in
+                   (fun _ _ => Some (mkintr ADeny 403)) (fun _ _ _ => None)
+                   ctl_none (fun _ => ctl_none) (fun _ _ => ctl_none) in
   let r := wrap_handler cfg false [] [HWrite [83; 69; 67]] in
   r_invoked r = true /\ r_intr r = Some (mkintr ADeny 403) /\
   cl_status (client_of false (r_ds r)) = 403 /\ cl_body (client_of false (r_ds r)) = [].
@@ -1426,7 +1435,7 @@ Qed.
 (* a non-trivial instance of the guards of the pass-through theorems: buffered response, ProcessPartial
    limit crossed in the middle of a chunk, flushes, ReadFrom, request body above its limit *)
 Definition ex_cfg : config :=
-  mkcfg EOn true 3 Partial true 5 Partial [str "text/plain"%string] None (fun _ => None) (fun _ _ => None) (fun _ _ _ => None).
+  mkcfg EOn true 3 Partial true 5 Partial [str "text/plain"%string] None (fun _ => None) (fun _ _ => None) (fun _ _ _ => None) ctl_none (fun _ => ctl_none) (fun _ _ => ctl_none).
 Definition ex_ops : list hop :=
   [HSet K_CT (str "text/plain"%string); HSet (str "X-A"%string) [97]; HRead 2; HReadAll; HWriteHeader 201;
    HWrite [1; 2; 3]; HFlush; HReadFrom [[4; 5; 6]; [7]]; HWrite []; HFlush; HWrite [8]].
@@ -1436,3 +1445,46 @@ Example passthrough_guard_example :
   r_intr r = None /\ r_read r = [10; 11; 12; 13; 14] /\
   cl_status (client_of true (r_ds r)) = 201 /\ cl_body (client_of true (r_ds r)) = [1; 2; 3; 4; 5; 6; 7; 8].
 Proof. repeat split; reflexivity. Qed.
+
+(* ------------------------------------------------------------------ ctl: the buffering decision is taken after phase 3 *)
+(* after the first WriteHeader (no interruption) flushing is allowed exactly when the transaction,
+   as the phase-3 rules and their ctl actions left it, will not buffer the body *)
+Lemma buffering_after_phase3_holds : forall cfg sk c m,
+  i_wrote (m_ic m) = false -> i_allow (m_ic m) = false ->
+  let m' := ic_write_header cfg sk c m in
+  t_intr (m_tx m') = None ->
+  m_tx m' = tx_resp_headers cfg c (d_live (m_ds m)) (m_tx m) /\
+  i_allow (m_ic m') = negb (buffering cfg (m_tx m')).
+Proof.
+  intros cfg sk c m W A m' X. subst m'.
+  pose proof (wh_tx cfg sk c m) as T. rewrite W in T. split; [exact T|].
+  rewrite T in *. unfold ic_write_header. rewrite W, X.
+  destruct (buffering cfg (tx_resp_headers cfg c (d_live (m_ds m)) (m_tx m))); cbn [negb];
+    destruct (c =? 101); cbn; unfold ic_flush_header; cbn; try destruct (i_hflushed (m_ic m)); cbn; try reflexivity; exact A.
+Qed.
+
+(* and a Write after it is buffered, not passed on, exactly in that case (nothing reaches the writer) *)
+Lemma buffered_write_reaches_no_writer : forall cfg sk b m,
+  t_intr (m_tx m) = None -> i_wrote (m_ic m) = true -> i_released (m_ic m) = false ->
+  buffering cfg (m_tx m) = true -> blen (t_rbuf (m_tx m)) + blen b < t_rlim (m_tx m) ->
+  m_ds (ic_write cfg sk b m) = m_ds m /\ t_rbuf (m_tx (ic_write cfg sk b m)) = t_rbuf (m_tx m) ++ b.
+Proof.
+  intros cfg sk b m I W R B L. unfold ic_write. rewrite I, W, I, B, R. cbn [negb andb].
+  unfold tx_write_resp.
+  assert (t_rlim (m_tx m) =? blen (t_rbuf (m_tx m)) = false) as E1 by (apply N.eqb_neq; lia).
+  assert (t_rlim (m_tx m) <=? blen (t_rbuf (m_tx m)) + blen b = false) as E2 by (apply N.leb_gt; lia).
+  rewrite E1, E2, I, N.eqb_refl. cbn. split; reflexivity.
+Qed.
+
+(* the shape of seed C18-g: static SecResponseBodyAccess Off, a phase-3 rule switches buffering on by ctl
+   (responseBodyAccess=On, forceResponseBodyVariable=On), phase 4 denies: nothing of the body passes *)
+Example ctl_phase3_switches_buffering_on :
+  let cfg := mkcfg EOn false 8 Reject false 100 Reject [] None (fun _ => None) (fun _ _ => None)
+                   (fun _ _ body => if is_substring [83; 69; 67] body then Some (mkintr ADeny 403) else None)
+                   ctl_none (fun _ => ctl_none)
+                   (fun _ _ => mkctl None None (Some true) (Some true) None) in
+  let ops := [HWrite [116; 111; 112]; HFlush; HReadFrom [[83; 69]; [67]]; HWrite [33]] in
+  (forall sk, let r := wrap_handler cfg sk [] ops in
+     r_invoked r = true /\ r_intr r = Some (mkintr ADeny 403) /\
+     rev (d_trace (r_ds r)) = [DHeader 403 [(K_CL, [[48]])]] /\ cl_body (client_of sk (r_ds r)) = []).
+Proof. intros cfg ops sk; destruct sk; repeat split; reflexivity. Qed.
